@@ -18,9 +18,9 @@ E == TraceLog[l]
 Punct == {"(", ")", ",", ":", "->", "?", "[", "]"}
 Wordy(s) == s \notin Punct
 SpaceOnly == {"", "sp", "sp2"}
-GapKinds == {"", "sp", "sp2", "tab", "lf", "crlf", "tc", "cl", "ec", "doc1", "doc2", "docblank", "endc"}
+GapKinds == {"", "sp", "sp2", "tab", "lf", "crlf", "tc", "cl", "ec", "doc1", "doc2", "docblank", "endc", "doc1cr", "doc2cr", "tccr"}
 HasWs(g) == g # ""
-Resets(g) == g \in {"lf", "crlf", "cl", "ec", "doc1", "doc2", "docblank", "endc"}    \* contains a line end outside a comment
+Resets(g) == g \in {"lf", "crlf", "cl", "ec", "doc1", "doc2", "docblank", "endc", "doc1cr", "doc2cr"}    \* contains a line end outside a comment
 (* gap i+1 sits between toks[i] and toks[i+1]; gap 1 before the first token, the last after the last *)
 GapOK(toks, i, g) ==
   /\ g \in GapKinds
@@ -31,12 +31,13 @@ GapOK(toks, i, g) ==
         \* this implementation reads an error's optional type on the same line (anchored mechanism of C06)
         /\ (i >= 2 /\ toks[i - 1].s = "error" /\ toks[i + 1].s = "(" => g \in SpaceOnly)
         \* ... hence a typeless error ends with its line
-        /\ (i >= 2 /\ toks[i - 1].s = "error" /\ toks[i + 1].s \in {"type", "method", "error"} => Resets(g) \/ g = "tc")
+        /\ (i >= 2 /\ toks[i - 1].s = "error" /\ toks[i + 1].s \in {"type", "method", "error"} => Resets(g) \/ g \in {"tc", "tccr"})
 LayoutOK(toks, lay) == Len(lay) = Len(toks) + 1 /\ \A i \in 0..Len(toks) : GapOK(toks, i, lay[i + 1])
 
 (* documentation: the block of comment lines directly above; a blank line forgets it *)
+(* (the CR of a CRLF line end is layout: the driver reports documentation with CR before LF / at the end removed) *)
 TailDoc(g) == CASE g = "tc" -> "c" [] g = "cl" -> "c" [] g = "endc" -> "c" [] g = "doc1" -> "d1"
-                [] g = "doc2" -> "d1\nd2" [] OTHER -> ""
+                [] g = "doc2" -> "d1\nd2" [] g = "doc1cr" -> "d1" [] g = "doc2cr" -> "d1\nd2" [] g = "tccr" -> "c" [] OTHER -> ""
 JoinDoc(a, b) == IF a = "" THEN b ELSE IF b = "" THEN a ELSE a \o "\n" \o b
 RECURSIVE DocAfter(_, _)
 DocAfter(lay, n) ==      \* the pending comment block after gaps 1..n
